@@ -92,6 +92,37 @@ def gen_cases(rng, tier):
                 c1 = bitd_call(small_image(rng, d1 if d1 != 4 else 8), name=n1); c1['args'][2] = d1
                 c2 = bitd_call(small_image(rng, d2 if d2 != 4 else 8), name=n2); c2['args'][2] = d2
                 yield {'hist': [c1, c2]}
+    # every decoder kind, not only bitmaps: a call after a call of the SAME kind with a different shape, the first one
+    # complete, failing in its header, or failing part-way (state written by the first call must not reach the second)
+    def snd(kind):
+        if kind == 'std':
+            return C07.mk(rng, ext=False)
+        bits, ch = {'e8': (8, 1), 'e8s': (8, 2), 'e16': (16, 1), 'e16s': (16, 2)}[kind]
+        c = C07.mk(rng, ext=True, bits=bits, channels=ch)
+        while len(c['samples']) < 4:
+            c = C07.mk(rng, ext=True, bits=bits, channels=ch)
+        return c
+    for k1 in ('std', 'e8', 'e8s', 'e16', 'e16s'):
+        for k2 in ('std', 'e8', 'e16s'):
+            for cut in ('whole', 'header', 'samples'):
+                c1 = snd(k1)
+                d1 = C07.enc(c1)
+                if cut == 'header':
+                    d1 = d1[:max(2, len(d1) - len(c1['samples']) - len(c1['tail']) - 3)]
+                elif cut == 'samples':
+                    if len(c1['samples']) < 2:
+                        continue
+                    d1 = d1[:len(d1) - len(c1['tail']) - len(c1['samples']) // 2 - 1]
+                yield {'hist': [{'k': 'snd', 'data': d1}, {'k': 'snd', 'data': C07.enc(snd(k2))}]}
+    for kind_fail in (False, True):
+        for _ in range(6 if tier == 'quick' else 60):
+            for kd in ('clut', 'vwsc', 'cast'):
+                a = b = None
+                while a is None or a['k'] != kd:
+                    a = other_call(rng, kind_fail)
+                while b is None or b['k'] != kd:
+                    b = other_call(rng, False)
+                yield {'hist': [a, b]}
     n = 150 if tier == 'quick' else 4000
     for k in range(n):
         hist = []
